@@ -12,6 +12,7 @@ TABLE = {
     "C04": ("p_routing", "model_checking"),
     "C05": ("p_ring", "model_checking"),
     "C08": ("p_life", "model_checking"),
+    "C09": ("p_gossip", "model_checking"),
 }
 
 if __name__ == "__main__":
